@@ -1,9 +1,9 @@
 """Witness for a failed VU-chunk clause: chunk-signed uploads encoded by a reference encoder written from the AWS documentation
-(replay `chunked`): complete / final chunk cut off / cut after the first chunk / a data byte flipped, through S3Service::call with a
+(replay `chunked`): complete / final chunk cut off / cut after the first chunk / a data byte flipped / one signature character upper-cased / one signature bit flipped, through S3Service::call with a
 backend that drains the body and reports how many bytes it got and how the stream ended."""
 def find(ctx, oblig, diag):
     res = None
-    for n, cs, v in (("100", "40", "cut-after-first-chunk"), ("100", "40", "no-final-chunk"), ("100", "40", "flip-data-byte"), ("100", "40", "complete"), ("0", "40", "complete"), ("65", "64", "complete")):
+    for n, cs, v in (("100", "40", "cut-after-first-chunk"), ("100", "40", "no-final-chunk"), ("100", "40", "flip-data-byte"), ("100", "40", "upper-case-signature-char"), ("100", "40", "flip-signature-low-bit"), ("100", "40", "complete"), ("0", "40", "complete"), ("65", "64", "complete")):
         res = ctx["replay_tool"](["chunked", n, cs, v])
         if res.get("violates"):
             res["source"] = "reference-encoded chunk-signed upload"; return res
